@@ -566,7 +566,7 @@ func counterSum(st *State, name string) string {
 	}
 	var keys []string
 	for k := range st.counters {
-		if strings.HasSuffix(k, "."+name) || strings.HasSuffix(k, ")."+name) || strings.HasSuffix(k, ":"+name) {
+		if strings.HasSuffix(k, "."+name) || strings.HasSuffix(k, ")."+name) || strings.HasSuffix(k, ":"+name) || globName(name, k) {
 			keys = append(keys, k)
 		}
 	}
